@@ -170,6 +170,9 @@ impl EvictionPicker for InvalidRatioPicker {
                 )
             })
             .collect_vec();
+        // Deterministic tie-break for verification harnesses (the stable sort below keeps this order among ties).
+        #[cfg(feature = "verif")]
+        data.sort_by_key(|(rid, _)| *rid);
         data.sort_by_key(|(_, invalid)| *invalid);
 
         let (rid, invalid) = data.last().copied()?;
